@@ -1156,6 +1156,12 @@ func parseBMPMessage(data []byte, optionsFunc func(BMPPeerHeader) []*bgp.Marshal
 	if err != nil {
 		return nil, err
 	}
+	if msg.Header.Length < BMP_HEADER_SIZE {
+		return nil, fmt.Errorf("invalid BMP message length: %d", msg.Header.Length)
+	}
+	if uint64(msg.Header.Length) > uint64(len(data)) {
+		return nil, fmt.Errorf("not all data bytes are available")
+	}
 	data = data[BMP_HEADER_SIZE:msg.Header.Length]
 
 	switch msg.Header.Type {
